@@ -159,6 +159,11 @@ type StatusView struct {
 	Kind  int
 	Type  string
 	Nonce uint64
+	// Raw: the object is {"id": string?, "type": string, "revocationNonce": <integer literal>}
+	// and Raw is that literal; then the Coq model performs the decode step itself (through
+	// the recorded encoding/json round trip of the literal)
+	Raw     *big.Int
+	RawType string
 }
 
 type StateView struct{ Value, CTR, RTR, ROR Hexf }
@@ -262,6 +267,7 @@ func Project(credJSON []byte, bjj bool) Top {
 		}
 		v.MTP = rproofOf(p.IssuerData.MTP)
 		v.Status = statusViewOf(p.IssuerData.CredentialStatus)
+		v.Status.Raw, v.Status.RawType = rawNonceLiteral(credJSON, string(pt))
 	} else {
 		var p verifiable.Iden3SparseMerkleTreeProof
 		if err := json.Unmarshal(raw, &p); err != nil {
@@ -277,6 +283,65 @@ func Project(credJSON []byte, bjj bool) Top {
 	}
 	t.Typed = v
 	return t
+}
+
+// rawNonceLiteral finds issuerData.credentialStatus of the first proof of the given type in
+// the credential text and returns its revocationNonce when the status is an object with only
+// a string id, a string type and a non-negative integer literal as nonce.
+func rawNonceLiteral(credJSON []byte, proofType string) (*big.Int, string) {
+	dec := json.NewDecoder(strings.NewReader(string(credJSON)))
+	dec.UseNumber()
+	var doc map[string]any
+	if err := dec.Decode(&doc); err != nil {
+		return nil, ""
+	}
+	var proofs []any
+	switch p := doc["proof"].(type) {
+	case []any:
+		proofs = p
+	case map[string]any:
+		proofs = []any{p}
+	}
+	for _, pi := range proofs {
+		po, ok := pi.(map[string]any)
+		if !ok || po["type"] != proofType {
+			continue
+		}
+		idata, _ := po["issuerData"].(map[string]any)
+		cs, ok := idata["credentialStatus"].(map[string]any)
+		if !ok {
+			return nil, ""
+		}
+		for k, v := range cs {
+			switch k {
+			case "id", "type":
+				if _, ok := v.(string); !ok {
+					return nil, ""
+				}
+			case "revocationNonce":
+			default:
+				return nil, ""
+			}
+		}
+		if _, ok := cs["type"].(string); !ok {
+			return nil, ""
+		}
+		num, ok := cs["revocationNonce"].(json.Number)
+		if !ok {
+			return nil, ""
+		}
+		for _, c := range string(num) {
+			if c < '0' || c > '9' {
+				return nil, ""
+			}
+		}
+		z, ok := new(big.Int).SetString(string(num), 10)
+		if !ok {
+			return nil, ""
+		}
+		return z, cs["type"].(string)
+	}
+	return nil, ""
 }
 
 func statusViewOf(cs any) StatusView {
@@ -343,7 +408,13 @@ type genCall struct {
 	res       *bool // nil = error
 }
 
+type jrtCall struct {
+	n   *big.Int
+	out *big.Int // nil = the round trip fails
+}
+
 type Recorder struct {
+	jrt  map[string]jrtCall
 	pos  map[string]posCall
 	sig  map[string]sigCall
 	idd  map[string]iddCall
@@ -352,7 +423,7 @@ type Recorder struct {
 }
 
 func NewRecorder() *Recorder {
-	return &Recorder{pos: map[string]posCall{}, sig: map[string]sigCall{}, idd: map[string]iddCall{},
+	return &Recorder{jrt: map[string]jrtCall{}, pos: map[string]posCall{}, sig: map[string]sigCall{}, idd: map[string]iddCall{},
 		gen: map[string]genCall{}, dids: map[string]int{}}
 }
 
@@ -385,6 +456,27 @@ func (r *Recorder) H(in ...*big.Int) *big.Int {
 		cp[i] = new(big.Int).Set(x)
 	}
 	r.pos[k] = posCall{in: cp, out: out}
+	return out
+}
+
+// JSONRoundTrip is what encoding/json does to an integer literal that is decoded into an
+// interface{} (float64), re-encoded and decoded into a uint64; recorded.
+func (r *Recorder) JSONRoundTrip(n *big.Int) *big.Int {
+	k := n.String()
+	if c, ok := r.jrt[k]; ok {
+		return c.out
+	}
+	var out *big.Int
+	var v any
+	if err := json.Unmarshal([]byte(k), &v); err == nil {
+		if b, err := json.Marshal(v); err == nil {
+			var u uint64
+			if err := json.Unmarshal(b, &u); err == nil {
+				out = new(big.Int).SetUint64(u)
+			}
+		}
+	}
+	r.jrt[k] = jrtCall{n, out}
 	return out
 }
 
@@ -763,14 +855,17 @@ func (s *Shard) Add(id int, t Top, env Env, obs int) {
 			}
 			sig := optLimbs(v.Sig)
 			status := "SOther"
-			switch v.Status.Kind {
-			case 1:
+			switch {
+			case v.Status.Raw != nil:
+				s.Rec.JSONRoundTrip(v.Status.Raw)
+				status = fmt.Sprintf("(SRaw %s %s)", s.F.Str(v.Status.RawType), coqgen.Limbs(v.Status.Raw))
+			case v.Status.Kind == 1:
 				status = "(SObj None)"
-			case 2:
+			case v.Status.Kind == 2:
 				status = fmt.Sprintf("(SObj (Some (%s, %s)))", s.F.Str(v.Status.Type),
 					coqgen.Limbs(new(big.Int).SetUint64(v.Status.Nonce)))
 			}
-			b = optOf(s.def("b", fmt.Sprintf("mkbjj_ %s %s %s %s %s %s %s", cl, auth, sig, mtp, st, did, status)), true)
+			b = optOf(s.def("b", fmt.Sprintf("mkbjj_ T_ %s %s %s %s %s %s %s", cl, auth, sig, mtp, st, did, status)), true)
 		} else {
 			b = optOf(s.def("b", fmt.Sprintf("mksmt_ %s %s %s %s", cl, mtp, st, did)), true)
 		}
@@ -794,7 +889,11 @@ func sortedKeys[V any](m map[string]V) []string {
 
 func (s *Shard) tablesCoq() string {
 	r := s.Rec
-	var pos, sg, idd, gen []string
+	var pos, sg, idd, gen, jrt []string
+	for _, k := range sortedKeys(r.jrt) {
+		c := r.jrt[k]
+		jrt = append(jrt, fmt.Sprintf("(%s, %s)", coqgen.Limbs(c.n), optLimbs(c.out)))
+	}
 	for _, k := range sortedKeys(r.pos) {
 		c := r.pos[k]
 		var in []string
@@ -820,16 +919,16 @@ func (s *Shard) tablesCoq() string {
 		}
 		gen = append(gen, fmt.Sprintf("((%s, %s), %s)", coqgen.Limbs(c.id), coqgen.Limbs(c.state), res))
 	}
-	return fmt.Sprintf("mktab %s\n %s\n %s\n %s\n %s", coqgen.Limbs(Q), coqgen.List(pos), coqgen.List(sg),
-		coqgen.List(idd), coqgen.List(gen))
+	return fmt.Sprintf("mktab %s\n %s\n %s\n %s\n %s\n %s", coqgen.Limbs(Q), coqgen.List(pos), coqgen.List(sg),
+		coqgen.List(idd), coqgen.List(gen), coqgen.List(jrt))
 }
 
 // Write emits the case file.
 func (s *Shard) Write(path string) error {
+	s.F.Add("Definition T_ := " + s.tablesCoq() + ".")
 	for _, l := range s.lines {
 		s.F.Add(l)
 	}
-	s.F.Add("Definition T_ := " + s.tablesCoq() + ".")
 	if s.BJJ {
 		s.F.Add("Definition cases_ : list case7 := " + coqgen.List(s.cases) + ".")
 		s.F.Add("Definition M := Eval vm_compute in mismatches7 T_ cases_.")
